@@ -162,114 +162,165 @@ def main():
         v = int(m.group(1), 0)
         emit("Definition %s : nat := %s.   (* %s *)" % (coq, str(v) if v <= 1000 else "N.to_nat %d%%N" % v, rel))
 
-    # --- W3C trace context (C09)
-    H = "api/include/opentelemetry/trace/propagation/http_trace_context.h"
-    nat_const("kTraceParentSize", H, r"kTraceParentSize\s*=\s*(\d+)\s*;")
-    nat_const("kVersionSize", H, r"kVersionSize\s*=\s*(\d+)\s*;")
-    nat_const("kTraceIdSize", H, r"kTraceIdSize\s*=\s*(\d+)\s*;")
-    nat_const("kSpanIdSize", H, r"kSpanIdSize\s*=\s*(\d+)\s*;")
-    nat_const("kTraceFlagsSize", H, r"kTraceFlagsSize\s*=\s*(\d+)\s*;")
-    m = find(H, r"kInvalidVersion\s*=\s*(0[xX][0-9a-fA-F]+|\d+)\s*;", "kInvalidVersion")
-    emit("Definition kInvalidVersion : N := %d." % int(m.group(1), 0))
+    failed = {}     # section -> error; a failed section emits nothing: exactly the Coq files that use its constants stop compiling
 
-    # hex table
-    X = "api/include/opentelemetry/trace/propagation/detail/hex.h"
-    m = find(X, r"kHexDigits\[256\]\s*=\s*\{(.*?)\}", "kHexDigits table")
-    vals = [int(v) for v in re.findall(r"-?\d+", m.group(1))]
-    if len(vals) != 256:
-        raise Missing("kHexDigits has %d entries" % len(vals))
-    emit("Definition kHexDigits : list Z := [%s]%%Z." % "; ".join(str(v) for v in vals))
+    def section(title, props, fn):
+        mark = len(out)
+        try:
+            fn()
+        except Missing as e:
+            del out[mark:]
+            emit("(* SECTION FAILED: %s: cannot find %s *)" % (title, e))
+            failed[title] = {"props": props, "error": "cannot find %s" % e}
 
-    # TraceFlags digit table
-    F = "api/include/opentelemetry/trace/trace_flags.h"
-    m = find(F, r"ToLowerBase16\(nostd::span<char, 2> buffer\).*?kHex\[\]\s*=\s*(\"[^;]*\")\s*;", "TraceFlags kHex")
-    tbl = join_literals(m.group(1))
-    emit("Definition kFlagsHexTable : list N := [%s]." % "; ".join(str(b) for b in tbl))
-    # TraceId / SpanId digit tables (C09: the injected ids go through these)
-    for nm, rel, width in (("kTraceIdHexTable", "api/include/opentelemetry/trace/trace_id.h", r"2 \* kSize"),
-                           ("kSpanIdHexTable", "api/include/opentelemetry/trace/span_id.h", r"2 \* kSize")):
-        m = find(rel, r"ToLowerBase16\(nostd::span<char, %s> buffer\).*?kHex\[\]\s*=\s*(\"[^;]*\")\s*;" % width, nm)
-        emit("Definition %s : list N := [%s]." % (nm, "; ".join(str(b) for b in join_literals(m.group(1)))))
-    nat_const("kIsSampled", F, r"kIsSampled\s*=\s*(\d+)\s*;")
+    def sec_0():
+        # --- W3C trace context (C09)
+        H = "api/include/opentelemetry/trace/propagation/http_trace_context.h"
+        nat_const("kTraceParentSize", H, r"kTraceParentSize\s*=\s*(\d+)\s*;")
+        nat_const("kVersionSize", H, r"kVersionSize\s*=\s*(\d+)\s*;")
+        nat_const("kTraceIdSize", H, r"kTraceIdSize\s*=\s*(\d+)\s*;")
+        nat_const("kSpanIdSize", H, r"kSpanIdSize\s*=\s*(\d+)\s*;")
+        nat_const("kTraceFlagsSize", H, r"kTraceFlagsSize\s*=\s*(\d+)\s*;")
+        m = find(H, r"kInvalidVersion\s*=\s*(0[xX][0-9a-fA-F]+|\d+)\s*;", "kInvalidVersion")
+        emit("Definition kInvalidVersion : N := %d." % int(m.group(1), 0))
 
-    # --- TraceState (C14)
-    T = "api/include/opentelemetry/trace/trace_state.h"
-    nat_const("kKeyMaxSize", T, r"kKeyMaxSize\s*=\s*(\d+)\s*;")
-    nat_const("kValueMaxSize", T, r"kValueMaxSize\s*=\s*(\d+)\s*;")
-    nat_const("kMaxKeyValuePairs", T, r"kMaxKeyValuePairs\s*=\s*(\d+)\s*;")
-    for name in ("reg_key", "reg_key_multitenant", "reg_value"):
-        m = find(T, r"static\s+std::regex\s+%s\s*\(\s*((?:\"(?:[^\"\\]|\\.)*\"\s*)+)\)" % name, "regex " + name)
-        emit(coq_regex(name, parse_regex(join_literals(m.group(1)))))
+        # hex table
+        X = "api/include/opentelemetry/trace/propagation/detail/hex.h"
+        m = find(X, r"kHexDigits\[256\]\s*=\s*\{(.*?)\}", "kHexDigits table")
+        vals = [int(v) for v in re.findall(r"-?\d+", m.group(1))]
+        if len(vals) != 256:
+            raise Missing("kHexDigits has %d entries" % len(vals))
+        emit("Definition kHexDigits : list Z := [%s]%%Z." % "; ".join(str(v) for v in vals))
 
-    # --- Baggage (C15)
-    B = "api/include/opentelemetry/baggage/baggage.h"
-    nat_const("kMaxKeyValuePairsBaggage", B, r"kMaxKeyValuePairs\s*=\s*(\d+)\s*;")
-    nat_const("kMaxKeyValueSize", B, r"kMaxKeyValueSize\s*=\s*(\d+)\s*;")
-    nat_const("kMaxSizeBaggage", B, r"kMaxSize\s*=\s*(\d+)\s*;")
+        # TraceFlags digit table
+        F = "api/include/opentelemetry/trace/trace_flags.h"
+        m = find(F, r"ToLowerBase16\(nostd::span<char, 2> buffer\).*?kHex\[\]\s*=\s*(\"[^;]*\")\s*;", "TraceFlags kHex")
+        tbl = join_literals(m.group(1))
+        emit("Definition kFlagsHexTable : list N := [%s]." % "; ".join(str(b) for b in tbl))
+        # TraceId / SpanId digit tables (C09: the injected ids go through these)
+        for nm, rel, width in (("kTraceIdHexTable", "api/include/opentelemetry/trace/trace_id.h", r"2 \* kSize"),
+                               ("kSpanIdHexTable", "api/include/opentelemetry/trace/span_id.h", r"2 \* kSize")):
+            m = find(rel, r"ToLowerBase16\(nostd::span<char, %s> buffer\).*?kHex\[\]\s*=\s*(\"[^;]*\")\s*;" % width, nm)
+            emit("Definition %s : list N := [%s]." % (nm, "; ".join(str(b) for b in join_literals(m.group(1)))))
+        nat_const("kIsSampled", F, r"kIsSampled\s*=\s*(\d+)\s*;")
 
-    # --- instrument names (C19)
-    V = "sdk/src/metrics/instrument_metadata_validator.cc"
-    for coq, cname in (("kInstrumentNamePattern", "kInstrumentNamePattern"), ("kInstrumentUnitPattern", "kInstrumentUnitPattern")):
-        m = find(V, r"%s\s*=\s*((?:\"(?:[^\"\\]|\\.)*\"\s*)+);" % cname, cname)
-        emit(coq_regex(coq, parse_regex(join_literals(m.group(1)))))
-    # the limits of the hand-written (non-regex) validator variant, in source order: ValidateName, ValidateUnit (C19)
-    lims = re.findall(r"const\s+size_t\s+kMaxSize\s*=\s*(\d+)\s*;", src(V))
-    if len(lims) != 2:
-        raise Missing("the two kMaxSize limits of the non-regex validators in " + V)
-    emit("Definition kNrNameMaxSize : nat := %d.   (* %s *)" % (int(lims[0]), V))
-    emit("Definition kNrUnitMaxSize : nat := %d.   (* %s *)" % (int(lims[1]), V))
-    # the name a disabled SDK Logger answers with (api NoopLogger::GetName), used by the LoggerProvider registry lookup (C19)
-    m = find("api/include/opentelemetry/logs/noop.h",
-             r"class\s+NoopLogger\b.*?GetName\(\)\s*noexcept\s*override\s*\{\s*return\s*(\"(?:[^\"\\]|\\.)*\")\s*;", "NoopLogger::GetName literal")
-    emit("Definition kNoopLoggerName : list N := [%s]." % "; ".join(str(b) for b in join_literals(m.group(1))))
+    section('W3C trace context (C09)', ['C09'], sec_0)
 
-    # --- metrics limits (C08) and default histogram boundaries (C07)
-    A = "sdk/include/opentelemetry/sdk/metrics/state/attributes_hashmap.h"
-    nat_const("kAggregationCardinalityLimit", A, r"kAggregationCardinalityLimit\s*=\s*(\d+)\s*;")
-    sys.path.insert(0, os.path.dirname(os.path.abspath(__file__)))
-    from c08_consts import emit_c08
-    emit_c08(emit, find, join_literals, Missing)
+    def sec_1():
+        # --- TraceState (C14)
+        T = "api/include/opentelemetry/trace/trace_state.h"
+        nat_const("kKeyMaxSize", T, r"kKeyMaxSize\s*=\s*(\d+)\s*;")
+        nat_const("kValueMaxSize", T, r"kValueMaxSize\s*=\s*(\d+)\s*;")
+        nat_const("kMaxKeyValuePairs", T, r"kMaxKeyValuePairs\s*=\s*(\d+)\s*;")
+        for name in ("reg_key", "reg_key_multitenant", "reg_value"):
+            m = find(T, r"static\s+std::regex\s+%s\s*\(\s*((?:\"(?:[^\"\\]|\\.)*\"\s*)+)\)" % name, "regex " + name)
+            emit(coq_regex(name, parse_regex(join_literals(m.group(1)))))
 
-    # --- B3 / Jaeger propagators (C16): id sizes and the hex-string lengths the B3 buffers are derived from
-    nat_const("kTraceIdBytes", "api/include/opentelemetry/trace/trace_id.h", r"static\s+constexpr\s+int\s+kSize\s*=\s*(\d+)\s*;", "TraceId::kSize")
-    nat_const("kSpanIdBytes", "api/include/opentelemetry/trace/span_id.h", r"static\s+constexpr\s+int\s+kSize\s*=\s*(\d+)\s*;", "SpanId::kSize")
-    P = "api/include/opentelemetry/trace/propagation/b3_propagator.h"
-    nat_const("kB3TraceIdHexStrLength", P, r"kTraceIdHexStrLength\s*=\s*(\d+)\s*;")
-    nat_const("kB3SpanIdHexStrLength", P, r"kSpanIdHexStrLength\s*=\s*(\d+)\s*;")
+    section('TraceState (C14)', ['C14'], sec_1)
 
-    # --- environment readers and resources (C18): see tools/c18_consts.py
-    sys.path.insert(0, os.path.dirname(os.path.abspath(__file__)))
-    from c18_consts import emit_c18
-    emit_c18(emit, find, src, join_literals, Missing)
+    def sec_2():
+        # --- Baggage (C15)
+        B = "api/include/opentelemetry/baggage/baggage.h"
+        nat_const("kMaxKeyValuePairsBaggage", B, r"kMaxKeyValuePairs\s*=\s*(\d+)\s*;")
+        nat_const("kMaxKeyValueSize", B, r"kMaxKeyValueSize\s*=\s*(\d+)\s*;")
+        nat_const("kMaxSizeBaggage", B, r"kMaxSize\s*=\s*(\d+)\s*;")
 
-    # --- context key under which the active span is stored (C10)
-    m = find("api/include/opentelemetry/trace/span_metadata.h", r"constexpr\s+char\s+kSpanKey\[\]\s*=\s*(\"(?:[^\"\\]|\\.)*\")\s*;", "kSpanKey")
-    emit("Definition kSpanKeyBytes : list N := [%s]." % "; ".join(str(b) for b in join_literals(m.group(1))))
+    section('Baggage (C15)', ['C15'], sec_2)
 
-    # --- histogram defaults and sentinels (C07): see tools/c07_consts.py
-    sys.path.insert(0, os.path.dirname(os.path.abspath(__file__)))
-    from c07_consts import emit_c07
-    emit_c07(emit, find, src, Missing)
+    def sec_3():
+        # --- instrument names (C19)
+        V = "sdk/src/metrics/instrument_metadata_validator.cc"
+        for coq, cname in (("kInstrumentNamePattern", "kInstrumentNamePattern"), ("kInstrumentUnitPattern", "kInstrumentUnitPattern")):
+            m = find(V, r"%s\s*=\s*((?:\"(?:[^\"\\]|\\.)*\"\s*)+);" % cname, cname)
+            emit(coq_regex(coq, parse_regex(join_literals(m.group(1)))))
+        # the limits of the hand-written (non-regex) validator variant, in source order: ValidateName, ValidateUnit (C19)
+        lims = re.findall(r"const\s+size_t\s+kMaxSize\s*=\s*(\d+)\s*;", src(V))
+        if len(lims) != 2:
+            raise Missing("the two kMaxSize limits of the non-regex validators in " + V)
+        emit("Definition kNrNameMaxSize : nat := %d.   (* %s *)" % (int(lims[0]), V))
+        emit("Definition kNrUnitMaxSize : nat := %d.   (* %s *)" % (int(lims[1]), V))
+        # the name a disabled SDK Logger answers with (api NoopLogger::GetName), used by the LoggerProvider registry lookup (C19)
+        m = find("api/include/opentelemetry/logs/noop.h",
+                 r"class\s+NoopLogger\b.*?GetName\(\)\s*noexcept\s*override\s*\{\s*return\s*(\"(?:[^\"\\]|\\.)*\")\s*;", "NoopLogger::GetName literal")
+        emit("Definition kNoopLoggerName : list N := [%s]." % "; ".join(str(b) for b in join_literals(m.group(1))))
 
-    # --- samplers and the sampling part of Tracer::StartSpan (C12): see tools/c12_consts.py
-    sys.path.insert(0, os.path.dirname(os.path.abspath(__file__)))
-    from c12_consts import emit_c12
-    emit_c12(emit, find, src, join_literals, Missing)
+    section('instrument names (C19)', ['C19'], sec_3)
 
-    # --- spin-lock back-off constant (C11): see tools/c11_consts.py
-    sys.path.insert(0, os.path.dirname(os.path.abspath(__file__)))
-    from c11_consts import emit_c11
-    emit_c11(emit, find, src, Missing)
+    def sec_4():
+        # --- metrics limits (C08) and default histogram boundaries (C07)
+        A = "sdk/include/opentelemetry/sdk/metrics/state/attributes_hashmap.h"
+        nat_const("kAggregationCardinalityLimit", A, r"kAggregationCardinalityLimit\s*=\s*(\d+)\s*;")
+        sys.path.insert(0, os.path.dirname(os.path.abspath(__file__)))
+        from c08_consts import emit_c08
+        emit_c08(emit, find, join_literals, Missing)
 
-    # --- root-span marker key of an explicit parent Context (C05): see tools/c05_consts.py
-    sys.path.insert(0, os.path.dirname(os.path.abspath(__file__)))
-    from c05_consts import emit_c05
-    emit_c05(emit, find, join_literals, Missing)
+    section('metrics limits (C08) and default histogram boundaries (C07)', ['C07', 'C08'], sec_4)
 
-    # --- severities passed on by the Trace()..Fatal() wrappers of logs::Logger (C13): see tools/c13_consts.py
-    sys.path.insert(0, os.path.dirname(os.path.abspath(__file__)))
-    from c13_consts import emit_c13
-    emit_c13(emit, find, src, Missing)
+    def sec_5():
+        # --- B3 / Jaeger propagators (C16): id sizes and the hex-string lengths the B3 buffers are derived from
+        nat_const("kTraceIdBytes", "api/include/opentelemetry/trace/trace_id.h", r"static\s+constexpr\s+int\s+kSize\s*=\s*(\d+)\s*;", "TraceId::kSize")
+        nat_const("kSpanIdBytes", "api/include/opentelemetry/trace/span_id.h", r"static\s+constexpr\s+int\s+kSize\s*=\s*(\d+)\s*;", "SpanId::kSize")
+        P = "api/include/opentelemetry/trace/propagation/b3_propagator.h"
+        nat_const("kB3TraceIdHexStrLength", P, r"kTraceIdHexStrLength\s*=\s*(\d+)\s*;")
+        nat_const("kB3SpanIdHexStrLength", P, r"kSpanIdHexStrLength\s*=\s*(\d+)\s*;")
+
+    section('B3 / Jaeger propagators (C16): id sizes and the hex-string lengths the B3 buffers are derived from', ['C16'], sec_5)
+
+    def sec_6():
+        # --- environment readers and resources (C18): see tools/c18_consts.py
+        sys.path.insert(0, os.path.dirname(os.path.abspath(__file__)))
+        from c18_consts import emit_c18
+        emit_c18(emit, find, src, join_literals, Missing)
+
+    section('environment readers and resources (C18): see tools/c18_consts.py', ['C18'], sec_6)
+
+    def sec_7():
+        # --- context key under which the active span is stored (C10)
+        m = find("api/include/opentelemetry/trace/span_metadata.h", r"constexpr\s+char\s+kSpanKey\[\]\s*=\s*(\"(?:[^\"\\]|\\.)*\")\s*;", "kSpanKey")
+        emit("Definition kSpanKeyBytes : list N := [%s]." % "; ".join(str(b) for b in join_literals(m.group(1))))
+
+    section('context key under which the active span is stored (C10)', ['C10'], sec_7)
+
+    def sec_8():
+        # --- histogram defaults and sentinels (C07): see tools/c07_consts.py
+        sys.path.insert(0, os.path.dirname(os.path.abspath(__file__)))
+        from c07_consts import emit_c07
+        emit_c07(emit, find, src, Missing)
+
+    section('histogram defaults and sentinels (C07): see tools/c07_consts.py', ['C07'], sec_8)
+
+    def sec_9():
+        # --- samplers and the sampling part of Tracer::StartSpan (C12): see tools/c12_consts.py
+        sys.path.insert(0, os.path.dirname(os.path.abspath(__file__)))
+        from c12_consts import emit_c12
+        emit_c12(emit, find, src, join_literals, Missing)
+
+    section('samplers and the sampling part of Tracer::StartSpan (C12): see tools/c12_consts.py', ['C12'], sec_9)
+
+    def sec_10():
+        # --- spin-lock back-off constant (C11): see tools/c11_consts.py
+        sys.path.insert(0, os.path.dirname(os.path.abspath(__file__)))
+        from c11_consts import emit_c11
+        emit_c11(emit, find, src, Missing)
+
+    section('spin-lock back-off constant (C11): see tools/c11_consts.py', ['C11'], sec_10)
+
+    def sec_11():
+        # --- root-span marker key of an explicit parent Context (C05): see tools/c05_consts.py
+        sys.path.insert(0, os.path.dirname(os.path.abspath(__file__)))
+        from c05_consts import emit_c05
+        emit_c05(emit, find, join_literals, Missing)
+
+    section('root-span marker key of an explicit parent Context (C05): see tools/c05_consts.py', ['C05'], sec_11)
+
+    def sec_12():
+        # --- severities passed on by the Trace()..Fatal() wrappers of logs::Logger (C13): see tools/c13_consts.py
+        sys.path.insert(0, os.path.dirname(os.path.abspath(__file__)))
+        from c13_consts import emit_c13
+        emit_c13(emit, find, src, Missing)
+
+
+    section('severities passed on by the Trace()..Fatal() wrappers of logs::Logger (C13): see tools/c13_consts.py', ['C13'], sec_12)
 
     text = "\n".join(out) + "\n"
     old = None
@@ -282,6 +333,11 @@ def main():
         os.makedirs(os.path.dirname(OUT), exist_ok=True)
         with open(OUT, "w") as f:
             f.write(text)
+    import json
+    with open(os.path.join(os.path.dirname(OUT), "consts_status.json"), "w") as f:
+        json.dump(failed, f, indent=1)
+    for t, v in failed.items():
+        print("extract_consts: section '%s' (%s): %s" % (t, ",".join(v["props"]), v["error"]), file=sys.stderr)
     return 0
 
 
